@@ -700,7 +700,12 @@ pub fn relate_neighbours(r: &mut Rng, s: &mut Spec) {
         return;
     }
     match s {
-        Spec::Sr { blocks, .. } | Spec::Rr { blocks, .. } => {
+        Spec::Sr { ssrc, blocks, .. } | Spec::Rr { ssrc, blocks, .. } => {
+            // a report block about the reporter's own SSRC
+            if !blocks.is_empty() && r.chance(1, 4) {
+                let k = r.below(blocks.len());
+                blocks[k].ssrc = *ssrc;
+            }
             for i in 1..blocks.len() {
                 if r.chance(1, 3) {
                     blocks[i].ssrc = relate_u32(r, blocks[i - 1].ssrc);
